@@ -32,6 +32,13 @@ def letOf : Lab → Int → Int
     else (if p < j then mI else if p = j then mA else if p < i then mZ else if p = i then mC else mI)
   | _, _ => mI
 
+/-- the charge of the nodes of a family (creation order of `molSpecs`; identity chains: 0) -/
+def tagQ : Nat → Int
+  | 0 => 1 | 1 => -1 | 2 => 2 | 3 => -2 | 4 => 0 | 5 => -1 | 6 => 1 | 7 => -2 | 8 => 2 | 9 => 0 | _ => 0
+
+/-- the charge of an operator -/
+def opQ (o : Int) : Int := if o = mC then 1 else if o = mA then -1 else 0
+
 /-- word on the path from the left terminal to the node -/
 def lwLab (a : Lab) : Word := (List.range a.2.2.toNat).map fun (q : Nat) => letOf a (q : Int)
 /-- word on the path from the node to the right terminal -/
@@ -47,6 +54,7 @@ structure WLspec (L : Int) (x : Lab × Lab × Int) : Prop where
   pos : 0 ≤ x.1.2.2
   pre : ∀ q : Int, 0 ≤ q → q < x.1.2.2 → letOf x.2.1 q = letOf x.1 q
   last : letOf x.2.1 x.1.2.2 = x.2.2
+  chg : tagQ x.2.1.1 = tagQ x.1.1 + opQ x.2.2
 
 /-- a wiring edge of the right forest -/
 structure WRspec (L : Int) (x : Lab × Lab × Int) : Prop where
@@ -58,6 +66,7 @@ structure WRspec (L : Int) (x : Lab × Lab × Int) : Prop where
   le : x.2.1.2.2 ≤ L
   first : letOf x.1 x.1.2.2 = x.2.2
   post : ∀ q : Int, x.1.2.2 < q → q < L → letOf x.1 q = letOf x.2.1 q
+  chg : tagQ x.2.1.1 = tagQ x.1.1 + opQ x.2.2
 
 theorem WLspec.word {L : Int} {x : Lab × Lab × Int} (h : WLspec L x) : lwLab x.2.1 = lwLab x.1 ++ [x.2.2] := by
   unfold lwLab
@@ -128,7 +137,7 @@ end segs
 def tri (a b : Lab) (o : Int) : Lab × Lab × Int := (a, b, o)
 
 macro "wl_tac" : tactic =>
-  `(tactic| (refine ⟨?_, ?_, rfl, rfl, ?_, ?_, ?_, ?_⟩ <;>
+  `(tactic| (refine ⟨?_, ?_, rfl, rfl, ?_, ?_, ?_, ?_, rfl⟩ <;>
       (try simp only [mem_pyRange] at *) <;>
       (try intro q hq0 hq1) <;>
       (try simp only [labOk, letOf, tri] at *) <;>
@@ -183,7 +192,7 @@ theorem seg7_wl (L : Int) : ∀ x ∈ seg7 tri L, WLspec L x := by
   · wl_tac
 
 macro "wr_tac" : tactic =>
-  `(tactic| (refine ⟨?_, ?_, rfl, rfl, ?_, ?_, ?_, ?_⟩ <;>
+  `(tactic| (refine ⟨?_, ?_, rfl, rfl, ?_, ?_, ?_, ?_, rfl⟩ <;>
       (try simp only [mem_pyRange] at *) <;>
       (try intro q hq0 hq1) <;>
       (try simp only [labOk, letOf, tri] at *) <;>
